@@ -251,16 +251,26 @@ Lemma wal_records_checkpointed w last cp :
 Proof. reflexivity. Qed.
 
 (* ------------------------------------------------------------------ DB.truncate: what stays in the WAL *)
-Lemma truncate_wal d mint :
-  d_wal (truncate d mint) =
+Lemma truncate_wal o d mint zv :
+  o_inmem o = false ->
+  d_wal (truncate o d mint zv) =
   a_wal (agent_truncate (mkAgent (map s_ref (d_series d)) (d_deleted d) (d_wal d)) mint (gc_gone mint (d_series d))).
-Proof. reflexivity. Qed.
+Proof. intros H. unfold truncate. rewrite H. reflexivity. Qed.
 
-Theorem truncate_keeps_samples d mint k l x :
-  In (RSamples k l) (wal_records (d_wal d)) -> In x l -> mint <= snd (fst x) ->
-  exists l', In (RSamples k l') (wal_records (d_wal (truncate d mint))) /\ In x l'.
+Lemma truncate_series o d mint zv :
+  d_series (truncate o d mint zv) =
+  filter (fun s => negb (memz (s_ref s) (gc_gone mint (d_series d)))) (d_series d).
 Proof.
-  intros HR Hx Ht. rewrite truncate_wal, agent_truncate_wal. simpl.
+  unfold truncate. destruct (o_inmem o); [|reflexivity].
+  destruct (plan_last (w_first (d_wal d)) (w_cur (d_wal d))); reflexivity.
+Qed.
+
+Theorem truncate_keeps_samples o d mint zv k l x :
+  o_inmem o = false ->
+  In (RSamples k l) (wal_records (d_wal d)) -> In x l -> mint <= snd (fst x) ->
+  exists l', In (RSamples k l') (wal_records (d_wal (truncate o d mint zv))) /\ In x l'.
+Proof.
+  intros HO HR Hx Ht. rewrite (truncate_wal _ _ _ _ HO), agent_truncate_wal. simpl.
   destruct (plan_last (w_first (d_wal d)) (w_cur (d_wal d))) as [last|].
   - rewrite wal_records_checkpointed.
     destruct (wal_records_split (d_wal d) last _ HR) as [A|B].
@@ -273,11 +283,12 @@ Proof.
   - exists l. split; auto.
 Qed.
 
-Theorem truncate_keeps_exemplars d mint l x :
+Theorem truncate_keeps_exemplars o d mint zv l x :
+  o_inmem o = false ->
   In (RExemplars l) (wal_records (d_wal d)) -> In x l -> mint <= snd (fst x) ->
-  exists l', In (RExemplars l') (wal_records (d_wal (truncate d mint))) /\ In x l'.
+  exists l', In (RExemplars l') (wal_records (d_wal (truncate o d mint zv))) /\ In x l'.
 Proof.
-  intros HR Hx Ht. rewrite truncate_wal, agent_truncate_wal. simpl.
+  intros HO HR Hx Ht. rewrite (truncate_wal _ _ _ _ HO), agent_truncate_wal. simpl.
   destruct (plan_last (w_first (d_wal d)) (w_cur (d_wal d))) as [last|].
   - rewrite wal_records_checkpointed.
     destruct (wal_records_split (d_wal d) last _ HR) as [A|B].
@@ -297,36 +308,50 @@ Proof.
   - simpl in H2. rewrite app_nil_r in H2. auto.
 Qed.
 
-(* the series record of a series that survives the garbage collection stays in the WAL *)
-Theorem truncate_keeps_series d mint r :
-  In r (map s_ref (d_series (truncate d mint))) ->
-  In r (series_refs (wal_records (d_wal d))) ->
-  In r (series_refs (wal_records (d_wal (truncate d mint)))).
+(* the series record of a series that survives the garbage collection stays in the WAL (both checkpoint
+   implementations) *)
+Lemma inmem_checkpoint_series ser del dlab last zv r :
+  In r (map s_ref ser) -> In r (series_refs (inmem_checkpoint ser del dlab last zv)).
 Proof.
-  intros HL HR. rewrite truncate_wal, agent_truncate_wal. simpl.
-  destruct (plan_last (w_first (d_wal d)) (w_cur (d_wal d))) as [last|]; auto.
-  rewrite wal_records_checkpointed, series_refs_app.
-  apply series_refs_in in HR. destruct HR as [R [HR Hr]].
-  apply in_app_iff.
-  destruct (wal_records_split (d_wal d) last _ HR) as [A|B].
-  - left. unfold checkpoint. rewrite series_refs_app. apply in_app_iff. left.
-    apply cp_body_series.
-    + apply series_refs_in. eauto.
-    + unfold agent_keep. apply orb_true_iff. left. apply memz_iff.
-      simpl in HL. apply in_map_iff in HL. destruct HL as [s [E Hs]]. apply filter_In in Hs.
-      destruct Hs as [Hs Hg]. apply filter_In. subst r. split.
-      * apply in_map. auto.
-      * exact Hg.
-  - right. apply series_refs_in. eauto.
+  intros H. unfold inmem_checkpoint. destruct ser as [|s0 ser]; [contradiction|].
+  rewrite series_refs_app. apply in_app_iff. left. unfold series_refs. simpl. rewrite app_nil_r.
+  rewrite map_map. simpl in *. exact H.
+Qed.
+
+Theorem truncate_keeps_series o d mint zv r :
+  In r (map s_ref (d_series (truncate o d mint zv))) ->
+  In r (series_refs (wal_records (d_wal d))) ->
+  In r (series_refs (wal_records (d_wal (truncate o d mint zv)))).
+Proof.
+  intros HL HR. rewrite truncate_series in HL. destruct (o_inmem o) eqn:HO.
+  - unfold truncate. rewrite HO.
+    destruct (plan_last (w_first (d_wal d)) (w_cur (d_wal d))) as [last|]; simpl; auto.
+    rewrite wal_records_checkpointed, series_refs_app. apply in_app_iff. left.
+    apply inmem_checkpoint_series. exact HL.
+  - rewrite (truncate_wal _ _ _ _ HO), agent_truncate_wal. simpl.
+    destruct (plan_last (w_first (d_wal d)) (w_cur (d_wal d))) as [last|]; auto.
+    rewrite wal_records_checkpointed, series_refs_app.
+    apply series_refs_in in HR. destruct HR as [R [HR Hr]].
+    apply in_app_iff.
+    destruct (wal_records_split (d_wal d) last _ HR) as [A|B].
+    + left. unfold checkpoint. rewrite series_refs_app. apply in_app_iff. left.
+      apply cp_body_series.
+      * apply series_refs_in. eauto.
+      * unfold agent_keep. apply orb_true_iff. left. apply memz_iff.
+        apply in_map_iff in HL. destruct HL as [s [E Hs]]. apply filter_In in Hs.
+        destruct Hs as [Hs Hg]. apply filter_In. subst r. split.
+        -- apply in_map. auto.
+        -- exact Hg.
+    + right. apply series_refs_in. eauto.
 Qed.
 
 (* stripeSeries.GC: a surviving series has a write at or after mint; a collected one has none *)
-Theorem truncate_gc_spec d mint s :
+Theorem truncate_gc_spec o d mint zv s :
   In s (d_series d) ->
-  (In s (d_series (truncate d mint)) -> mint <= s_last s) /\
-  (~ In s (d_series (truncate d mint)) -> exists s', In s' (d_series d) /\ s_ref s' = s_ref s /\ s_last s' < mint).
+  (In s (d_series (truncate o d mint zv)) -> mint <= s_last s) /\
+  (~ In s (d_series (truncate o d mint zv)) -> exists s', In s' (d_series d) /\ s_ref s' = s_ref s /\ s_last s' < mint).
 Proof.
-  intros Hs. simpl. split.
+  intros Hs. rewrite truncate_series. split.
   - intros H. apply filter_In in H. destruct H as [_ H].
     destruct (Z_lt_le_dec (s_last s) mint) as [L|L]; auto.
     assert (M : memz (s_ref s) (gc_gone mint (d_series d)) = true).
@@ -338,7 +363,7 @@ Proof.
     + exfalso. apply H. apply filter_In. split; auto. rewrite M. auto.
 Qed.
 
-Theorem restart_keeps_wal d : wal_records (d_wal (restart d)) = wal_records (d_wal d).
+Theorem restart_keeps_wal o d : wal_records (d_wal (restart o d)) = wal_records (d_wal d).
 Proof. reflexivity. Qed.
 
 (* ------------------------------------------------------------------ appends only extend *)
@@ -534,7 +559,7 @@ Definition next_open (open : option Z) (e : event) : option (option Z) :=
       match open with None => Some (Some a) | Some b => if a =? b then Some open else None end
   | ECommit a _ | ERollback a _ =>
       match open with None => Some None | Some b => if a =? b then Some None else None end
-  | ETruncate _ | ERestart => match open with None => Some None | Some _ => None end
+  | ETruncate _ _ | ERestart => match open with None => Some None | Some _ => None end
   | ERoll | ESnap | EQuery _ _ _ => Some open
   end.
 
@@ -606,7 +631,7 @@ Lemma inv_finish st open a w' ser' (recs : list record) :
   w_cpidx w' = w_cpidx (d_wal (st_db st)) -> w_cur (d_wal (st_db st)) <= w_cur w' ->
   incl (map fst (p_series (pend st open))) (series_refs recs) ->
   map s_ref ser' = series_ids (st_db st) ->
-  Inv (mkSt (mkDB (d_next (st_db st)) ser' (d_deleted (st_db st)) (d_lastex (st_db st)) w')
+  Inv (mkSt (mkDB (d_next (st_db st)) ser' (d_deleted (st_db st)) (d_lastex (st_db st)) w' (d_dlab (st_db st)))
             (remove_key a (st_apps st))) None.
 Proof.
   intros I Ho HW HC HU HS HI. constructor; simpl.
@@ -633,13 +658,13 @@ Proof.
   - rewrite <- app_comm_cons, !run_from_cons. apply IH.
 Qed.
 
-Lemma replay_series_refs : forall recs st0 r,
-  In r (map s_ref (r_series (fold_left replay_rec recs st0))) ->
+Lemma replay_series_refs im : forall recs st0 r,
+  In r (map s_ref (r_series (fold_left (replay_rec im) recs st0))) ->
   In r (map s_ref (r_series st0)) \/ In r (series_refs (map snd recs)).
 Proof.
   assert (SL : forall r f l, map s_ref (set_last r f l) = map s_ref l).
   { intros r f. induction l as [|s l IH]; simpl; auto. destruct (s_ref s =? r); simpl; congruence. }
-  assert (A : forall seg l st0 r, In r (map s_ref (r_series (fold_left (replay_series seg) l st0))) ->
+  assert (A : forall seg l st0 r, In r (map s_ref (r_series (fold_left (replay_series im seg) l st0))) ->
                                   In r (map s_ref (r_series st0)) \/ In r (map fst l)).
   { intros seg. induction l as [|e l IH]; intros st0 r H; simpl in *; auto.
     apply IH in H. destruct H as [H|H]; auto. unfold replay_series in H.
@@ -704,16 +729,20 @@ Proof.
     + rewrite series_refs_nonempty. apply incl_refl.
   - (* ETruncate *)
     destruct open; [discriminate|]. inversion N; subst. simpl.
-    assert (W : w_cpidx (d_wal (truncate (st_db st) mint)) < w_cur (d_wal (truncate (st_db st) mint))).
-    { rewrite truncate_wal, agent_truncate_wal. simpl. pose proof (inv_wal _ _ I).
-      destruct (plan_last (w_first (d_wal (st_db st))) (w_cur (d_wal (st_db st)))) eqn:P; simpl; [|lia].
-      apply plan_last_lt in P. lia. }
+    assert (W : w_cpidx (d_wal (truncate o (st_db st) mint zv)) < w_cur (d_wal (truncate o (st_db st) mint zv))).
+    { pose proof (inv_wal _ _ I). destruct (o_inmem o) eqn:HO.
+      - unfold truncate. rewrite HO.
+        destruct (plan_last (w_first (d_wal (st_db st))) (w_cur (d_wal (st_db st)))) eqn:P; simpl; [|lia].
+        apply plan_last_lt in P. lia.
+      - rewrite (truncate_wal _ _ _ _ HO), agent_truncate_wal. simpl.
+        destruct (plan_last (w_first (d_wal (st_db st))) (w_cur (d_wal (st_db st)))) eqn:P; simpl; [|lia].
+        apply plan_last_lt in P. lia. }
     constructor; auto.
     + apply (inv_apps _ _ I).
-    + intros r H. left. change (st_db {| st_db := truncate (st_db st) mint; st_apps := st_apps st |}) with (truncate (st_db st) mint) in *.
+    + intros r H. left. change (st_db {| st_db := truncate o (st_db st) mint zv; st_apps := st_apps st |}) with (truncate o (st_db st) mint zv) in *.
       apply truncate_keeps_series; auto.
       assert (H0 : In r (series_ids (st_db st))).
-      { unfold series_ids in *. simpl in H. apply in_map_iff in H. destruct H as [s [E Hs]].
+      { unfold series_ids in *. rewrite truncate_series in H. apply in_map_iff in H. destruct H as [s [E Hs]].
         apply filter_In in Hs. subst. apply in_map. tauto. }
       destruct (inv_series _ _ I r H0) as [H1|H1]; auto. simpl in H1. contradiction.
     + intros it [].
@@ -1136,13 +1165,13 @@ Theorem last_monotone o st e r s :
   find_id r (d_series (st_db st)) = Some s ->
   match find_id r (d_series (st_db (fst (step o st e)))) with
   | Some s' => s_lab s' = s_lab s /\ s_last s <= s_last s'
-  | None => exists mint, e = ETruncate mint /\ In r (gc_gone mint (d_series (st_db st)))
+  | None => exists mint zv, e = ETruncate mint zv /\ In r (gc_gone mint (d_series (st_db st)))
   end.
 Proof.
   intros NR F.
   assert (G : forall d', grow (st_db st) d' -> match find_id r (d_series d') with
                                               | Some s' => s_lab s' = s_lab s /\ s_last s <= s_last s'
-                                              | None => exists mint, e = ETruncate mint /\ In r (gc_gone mint (d_series (st_db st))) end).
+                                              | None => exists mint zv, e = ETruncate mint zv /\ In r (gc_gone mint (d_series (st_db st))) end).
   { intros d' [n E]. rewrite E, (find_id_app _ _ n _ F). split; auto; lia. }
   destruct e; simpl; try (apply G; apply grow_refl); try contradiction.
   - destruct (ver =? 1).
@@ -1151,8 +1180,9 @@ Proof.
   - destruct (exemplar_v1 _ _ _ _) as [[d' p'] [[rr err] perr]] eqn:A. simpl. apply G. eapply exemplar_v1_grow; eauto.
   - destruct (commit_last (st_db st) (get_app st a) rolls r s F) as [s' [F' [L' [M' _]]]].
     simpl in F'. rewrite F'. auto.
-  - rewrite find_id_filter. destruct (memz r (gc_gone mint (d_series (st_db st)))) eqn:M.
-    + exists mint. split; auto. apply memz_iff. auto.
+  - change (d_series (st_db (mkSt (truncate o (st_db st) mint zv) (st_apps st)))) with (d_series (truncate o (st_db st) mint zv)).
+    rewrite truncate_series, find_id_filter. destruct (memz r (gc_gone mint (d_series (st_db st)))) eqn:M.
+    + exists mint, zv. split; auto. apply memz_iff. auto.
     + rewrite F. split; auto; lia.
 Qed.
 
@@ -1170,14 +1200,14 @@ Qed.
 
 (* every live series has its series record in the WAL whenever no appender is open *)
 Theorem live_series_logged o es e s :
-  wellformed (es ++ [e]) = true -> (e = ERestart \/ exists m, e = ETruncate m) ->
+  wellformed (es ++ [e]) = true -> (e = ERestart \/ exists m zv, e = ETruncate m zv) ->
   In s (d_series (st_db (run o es))) ->
   In (s_ref s) (series_refs (wal_records (d_wal (st_db (run o es))))).
 Proof.
   intros W He H. unfold run in *.
   destruct (inv_run o es st_empty None e inv_empty W) as [open' [I N]].
   assert (open' = None).
-  { destruct open'; auto. destruct He as [He|[m He]]; subst e; simpl in N; congruence. }
+  { destruct open'; auto. destruct He as [He|[m [zv He]]]; subst e; simpl in N; congruence. }
   subst. destruct (inv_series _ _ I (s_ref s)) as [C|C]; auto.
   - unfold series_ids. apply in_map. auto.
   - simpl in C. contradiction.
@@ -1190,7 +1220,7 @@ Proof. split; reflexivity. Qed.
 
 (* ------------------------------------------------------------------ refutations (replayed on the real agent DB by the
    harness: corpus cases 0 and 2) *)
-Definition o0 : opts := mkO 0 false.
+Definition o0 : opts := mkO 0 false false.
 
 (* appender 1 creates the series, appender 2 appends to it and commits first *)
 Definition ex_interleaved : list event :=
@@ -1209,8 +1239,8 @@ Proof. vm_compute. auto. Qed.
    series record is gone while its sample (at or after every truncation time) is still in the WAL *)
 Definition ex_gc_pending : list event :=
   [EAppend 1 1 0 1 0 5000 1 9 0 false false []; ECommit 1 [];
-   EAppend 2 1 0 2 0 5000 1 9 0 false false []; ERoll; ERoll; ETruncate 4000; ECommit 2 [];
-   ERoll; ERoll; ERoll; ERoll; ETruncate 4500].
+   EAppend 2 1 0 2 0 5000 1 9 0 false false []; ERoll; ERoll; ETruncate 4000 9; ECommit 2 [];
+   ERoll; ERoll; ERoll; ERoll; ETruncate 4500 9].
 
 Lemma gc_pending_refuted :
   wellformed ex_gc_pending = false /\
@@ -1226,7 +1256,7 @@ Definition ex_seq : list event :=
    EExemplar 1 1 (7, 1000, 0); ECommit 1 [];
    EAppend 2 2 0 1 0 900 3 9 0 false false []; EAppend 2 2 0 1 0 2000 4 9 0 false false [(8, 2000, 0)]; ECommit 2 [1];
    EAppend 3 1 0 3 0 2100 5 9 0 false false []; ERollback 3 [];
-   ERoll; ERoll; ETruncate 1500; ERestart;
+   ERoll; ERoll; ETruncate 1500 9; ERestart;
    EAppend 4 1 0 1 0 2500 6 9 0 false false []].
 
 Lemma ex_seq_facts :
@@ -1284,3 +1314,45 @@ Proof.
     simpl in *. inversion O; subst. unfold get_app. simpl. rewrite lookup_upsert_eq.
     eapply append_v2_accept; eauto.
 Qed.
+
+(* ------------------------------------------------------------------ CheckpointFromInMemorySeries *)
+(* what the in-memory checkpoint keeps: for every surviving series its series record followed by a float
+   sample carrying its last timestamp *)
+Theorem inmem_truncate_keeps_last o d mint zv last s :
+  o_inmem o = true ->
+  plan_last (w_first (d_wal d)) (w_cur (d_wal d)) = Some last ->
+  In s (d_series (truncate o d mint zv)) ->
+  logged 0 (s_ref s, s_last s, zv) (wal_records (d_wal (truncate o d mint zv))) = true.
+Proof.
+  intros HO HP HS. rewrite truncate_series in HS. unfold truncate. rewrite HO, HP. simpl.
+  rewrite wal_records_checkpointed.
+  set (ser := filter (fun s0 => negb (memz (s_ref s0) (gc_gone mint (d_series d)))) (d_series d)) in *.
+  unfold inmem_checkpoint. destruct ser as [|s0 ser'] eqn:E; [contradiction|]. rewrite <- E in *.
+  unfold logged.
+  change ((([RSeries (map (fun s1 => (s_ref s1, s_lab s1)) ser); RSamples 0 (map (fun s1 => (s_ref s1, s_last s1, zv)) ser)] ++
+            nonempty RSeries _) ++ _))
+    with ([RSeries (map (fun s1 => (s_ref s1, s_lab s1)) ser)] ++
+          RSamples 0 (map (fun s1 => (s_ref s1, s_last s1, zv)) ser) ::
+          (nonempty RSeries (map (fun e => (fst e, match lookup (fst e) (fold_left (fun m s1 => if memz (s_ref s1) (gc_gone mint (d_series d)) then upsert (s_ref s1) (s_lab s1) m else m) (d_series d) (d_dlab d)) with Some b => b | None => 0 end))
+                                 (filter (fun e => last <? snd e) (set_all (gc_gone mint (d_series d)) (w_cur (d_wal d)) (d_deleted d)))) ++
+           map snd (filter (fun sr => last <? fst sr) (filter (fun sr => last <? fst sr) (w_segs (wal_next_segment (d_wal d))))))).
+  apply logged_from_intro.
+  - simpl. split; auto. apply in_map_iff. exists s. auto.
+  - right. unfold series_refs. simpl. rewrite app_nil_r, map_map. simpl. apply in_map_iff. exists s. auto.
+Qed.
+
+(* ... and what it does not keep: the samples themselves.  Two committed samples at 5000 and 6000, three
+   forced segment rollovers, DB.truncate(4000): both samples are at or after the truncation time and
+   neither is in the WAL afterwards (only the stand-in (1, 6000, value 0)) *)
+Definition o_im : opts := mkO 0 false true.
+Definition ex_inmem : list event :=
+  [EAppend 1 1 0 1 0 5000 1 9 0 false false []; ECommit 1 [];
+   EAppend 2 1 0 1 0 6000 2 9 0 false false []; ECommit 2 []; ERoll; ERoll; ERoll].
+
+Lemma inmem_refuted :
+  wellformed (ex_inmem ++ [ETruncate 4000 9]) = true /\
+  wal_records (d_wal (st_db (run o_im ex_inmem))) =
+    [RSeries [(1, 1)]; RSamples 0 [(1, 5000, 1)]; RSamples 0 [(1, 6000, 2)]] /\
+  wal_records (d_wal (st_db (run o_im (ex_inmem ++ [ETruncate 4000 9])))) =
+    [RSeries [(1, 1)]; RSamples 0 [(1, 6000, 9)]].
+Proof. vm_compute. auto. Qed.
